@@ -204,6 +204,14 @@ class KModel(Model):
         if isinstance(a0, Obj) and a0.kind == 'lanes':
             if last in ('view', 'to_owned', 'into_owned', 'clone', 'view_mut'):
                 return a0
+        if last == 'scaled_add' and isinstance(a0, Obj) and a0.kind == 'target':
+            # ndarray's `self += alpha * rhs` (rhs broadcast to self's shape): the new lane value mentions the old one
+            alpha, rhs = deref_all(args[1]), deref_all(args[2])
+            if isinstance(alpha, Num) and isinstance(rhs, Obj) and rhs.kind == 'lanes':
+                t = self.lane_arg(a0, e)
+                self.events.append(('scaled_add', [('target', a0.d.get('label', 'target')), ('lanes', str(rhs.d['r']))], len(self.writes)))
+                t.place.set(Num(deref_all(t.place.get()).r + alpha.r * rhs.d['r']))
+                return Unit()
         if last == 'from' and name.startswith('ndarray::Zip'):
             return Obj('zip', parts=[deref_all(args[0])])
         if last == 'and' and isinstance(a0, Obj) and a0.kind == 'zip':
